@@ -98,6 +98,22 @@ func checkDigraph(v variant, probes []uint64, stop int, skipBoth bool) error {
 			if got := sortedSet(container.AdjacentNodes(v.g, n, d)); !equalU64(got, wantAdj) {
 				return fmt.Errorf("%s: container.AdjacentNodes(%d, %s) = %v, edge list says %v", v.name, n, dirName(d), got, wantAdj)
 			}
+			// a container may answer the question itself (the CSR graph does); reached through an interface assertion
+			if own, ok := v.g.(interface {
+				AdjacentNodes(uint64, graph.Direction) []uint64
+			}); ok {
+				if got := sortedSet(own.AdjacentNodes(n, d)); !equalU64(got, wantAdj) {
+					return fmt.Errorf("%s: its own AdjacentNodes(%d, %s) = %v, edge list says %v", v.name, n, dirName(d), got, wantAdj)
+				}
+				// ... and a read must leave the graph as it was: every node's rows once more
+				for _, m := range all {
+					for _, d2 := range []graph.Direction{graph.DirectionOutbound, graph.DirectionInbound} {
+						if got, want := sortedSet(collectAdj(v.g, m, d2)), v.m.adj(m, d2); !equalU64(got, want) {
+							return fmt.Errorf("%s: after its own AdjacentNodes(%d, %s), EachAdjacentNode(%d, %s) = %v, edge list says %v", v.name, n, dirName(d), m, dirName(d2), got, want)
+						}
+					}
+				}
+			}
 			calls := 0
 			v.g.EachAdjacentNode(n, d, func(uint64) bool { calls++; return calls < stop })
 			if w := min(stop, len(raw)); calls != w {
